@@ -359,6 +359,7 @@ func c18RelayCase(c *Ctx) *Result {
 		params["unresolvable_name_at"] = badPos
 	}
 	repliesAfterBad := 0
+	stalled := false
 	sentByID := map[int][]byte{}
 	for i := 0; i < cnt; i++ {
 		d := r.Intn(4)
@@ -391,10 +392,11 @@ func c18RelayCase(c *Ctx) *Result {
 		a.SetWriteDeadline(time.Now().Add(3 * time.Second))
 		if _, err := tun.Write(pkt); err != nil {
 			if unresolvable && i >= badPos {
-				res.Verdict, res.Sig = Violated, "C18|relay|association-ended-by-unresolvable-destination"
-				res.Detail = fmt.Sprintf("after the datagram addressed to an unresolvable name (position %d) the relay no longer takes datagrams from the tunnel: write %d fails with %v", badPos, i, err)
-				res.Shape = shapeHash(c.Idx)
-				return res
+				// no verdict from the time-out: stop sending, drain the replies
+				// (the relay may be blocked writing one), then see whether
+				// the relay loop has returned
+				stalled = true
+				break
 			}
 			res.Verdict, res.Detail = Inconclusive, "tunnel write: "+err.Error()
 			return res
@@ -489,8 +491,15 @@ func c18RelayCase(c *Ctx) *Result {
 	}
 	if sig == "" && unresolvable {
 		res.Obs["associations_with_an_unresolvable_name"]++
-		if repliesAfterBad == 0 && replies > 0 {
-			sig, detail = "association-ended-by-unresolvable-destination", fmt.Sprintf("%d replies came back for the datagrams before the one addressed to an unresolvable name, none for the %d datagrams after it", replies, cnt-badPos)
+		select {
+		case <-done:
+			sig, detail = "association-ended-by-unresolvable-destination", fmt.Sprintf("the relay loop returned although the client's tunnel is still open (%d replies came back, %d of them for datagrams after the one addressed to an unresolvable name)", replies, repliesAfterBad)
+		case <-time.After(300 * time.Millisecond):
+			if stalled {
+				res.Verdict, res.Detail = Inconclusive, "the tunnel stopped taking datagrams but the relay loop is still running"
+				a.Close()
+				return res
+			}
 		}
 	}
 	time.Sleep(50 * time.Millisecond)
